@@ -175,7 +175,15 @@ let () =
         let script = String.sub line (sp3 + 1) (String.length line - sp3 - 1) in
         let v = if var = "unpatched" then unpatched else repaired in
         let faults = if fl = "-" then [] else List.map int_of_string (String.split_on_char ',' fl) in
-        let o = fun n -> List.mem (int_of_nat n) faults in
+        (* [run] consults the oracle exactly once per fallible call, in order, with the index of that call
+           (FaultMonad.run: [o (nxt s)], then nxt := S nxt); a counter therefore equals the Peano argument and
+           avoids converting it (quadratic on runs with 10^4 calls).  The first calls are cross-checked. *)
+        let cnt = ref 0 in
+        let o = fun n ->
+          let i = !cnt in
+          incr cnt;
+          if i < 64 && int_of_nat n <> i then failwith "oracle index out of step";
+          List.mem i faults in
         let sx = parse script in
         let p = match tool with
           | "gen" -> gensquashfs v (gen sx)
